@@ -46,7 +46,7 @@ def lineAt (ls : List LineInfo) (fo : Nat) : Option LineInfo :=
   ls.find? (fun l => l.beg ≤ fo && fo ≤ l.fin)
 
 /-- part A of `find_sysline_year`: find the line that starts the message -/
-def partA (ls : List LineInfo) : Nat → Nat → Bool → Nat → Option LineInfo
+def slPartA (ls : List LineInfo) : Nat → Nat → Bool → Nat → Option LineInfo
   | 0, _, _, _ => none
   | fuel + 1, fo1, zeroTried, foAMax =>
     match lineAt ls fo1 with
@@ -56,12 +56,12 @@ def partA (ls : List LineInfo) : Nat → Nat → Bool → Nat → Option LineInf
       match l.dt with
       | some _ => some l
       | none =>
-        if zeroTried then partA ls fuel foAMax true foAMax
-        else if l.beg > 1 then partA ls fuel (l.beg - 1) false foAMax
-        else partA ls fuel 0 true foAMax
+        if zeroTried then slPartA ls fuel foAMax true foAMax
+        else if l.beg > 1 then slPartA ls fuel (l.beg - 1) false foAMax
+        else slPartA ls fuel 0 true foAMax
 
 /-- part B: append following lines that carry no timestamp; returns the last byte -/
-def partB (ls : List LineInfo) : Nat → Nat → Nat → Nat
+def slPartB (ls : List LineInfo) : Nat → Nat → Nat → Nat
   | 0, _, fin => fin
   | fuel + 1, fo1, fin =>
     match lineAt ls fo1 with
@@ -69,7 +69,7 @@ def partB (ls : List LineInfo) : Nat → Nat → Nat → Nat
     | some l =>
       match l.dt with
       | some _ => fin
-      | none => partB ls fuel (l.fin + 1) l.fin
+      | none => slPartB ls fuel (l.fin + 1) l.fin
 
 inductive Res where
   | done
@@ -81,10 +81,10 @@ inductive Res where
 /-- `SyslineReader::find_sysline(fo)` -/
 def findSysline (ls : List LineInfo) (fo : Nat) : Res :=
   let n := ls.length
-  match partA ls (2 * n + 2) fo false 0 with
+  match slPartA ls (2 * n + 2) fo false 0 with
   | none => .done
   | some h =>
-    let fin := partB ls (n + 1) (h.fin + 1) h.fin
+    let fin := slPartB ls (n + 1) (h.fin + 1) h.fin
     .found (fin + 1) ⟨h.beg, fin, h.dt.getD 0⟩
 
 def fileSz (ls : List LineInfo) : Nat :=
